@@ -81,6 +81,19 @@ def cancel_rules(ck, C):
                                 if blk["term"]["t"] == "switch" and T.tainted_by_call(cn, blk["term"]["on"], [c2.bb]):
                                     if T.reachable_only_via(cn, cs.bb, T.edges_of_value(cn, sw, True)):
                                         ok = True
+        # the same test written in the function itself (`matches!(self.heap.peek(), Some(n) if n.counter == counter)`)
+        peeks = [c.bb for c in T.calls(cn, name="peek") if T.path_has(cn, c.args[0], ".heap")]
+        for i, j, st in cn.statements():
+            if st["s"] == "assign" and st["rv"]["r"] == "bin" and not st["pl"]["p"] and not cn.is_cleanup(i):
+                fc = T.field_cmp(cn, st["rv"])
+                if not (fc and fc[0] == "Eq" and fc[1] == "counter" and (fc[2] == ("arg", 2) or fc[4] == ("arg", 2))):
+                    continue
+                if not any(T.resolves_to_call(cn, x, peeks) for x in (st["rv"]["a"], st["rv"]["b"])):
+                    continue
+                for sw, blk in enumerate(cn.blocks):
+                    if blk["term"]["t"] == "switch" and st["pl"]["l"] in T.copy_chain_locals(cn, blk["term"]["on"]):
+                        if T.reachable_only_via(cn, cs.bb, T.edges_of_value(cn, sw, True)):
+                            ok = True
         ck.verdict(ok, C, "T4-guarded-by", cn, "fast-path-pop-only-if-head-has-this-counter", "the fast path pops the head only when its counter matches", "cancel pops the head of the heap without it carrying the cancelled counter", site=cn.where(cs.bb))
     # every path through cancel performs a removal on the heap
     bad = T.t2_all_exits(cn, [0], [c.bb for c in removers]) if removers else [0]
@@ -230,7 +243,7 @@ def run(ck):
             drop_e = T.discr_edges(pe, sws[0], dsc["Drop"])
             rets = []
             for i, j, st in pe.statements():
-                if st["s"] == "assign" and st["pl"]["l"] == 0 and st["rv"]["r"] == "agg" and st["rv"].get("variant") == "Ok":
+                if st["s"] == "assign" and st["pl"]["l"] in T.ret_locals(pe) and st["rv"]["r"] == "agg" and st["rv"].get("variant") == "Ok":
                     rets.append((i, T.agg_variant(pe, st["rv"]["fields"][0])))
             rm = [i for i, v in rets if v == {("sources::PostAction", "Remove")}]
             others = [i for i, v in rets if v != {("sources::PostAction", "Remove")}]
